@@ -535,7 +535,11 @@ func runCheck(prop, tier, replayPath string) int {
 
 	// violations -> replay files, known findings
 	known := loadKnown()
-	os.MkdirAll(filepath.Join(verifDir, "replays"), 0755)
+	replayDir := filepath.Join(verifDir, "replays")
+	if d := os.Getenv("VSIM_EVIDENCE_DIR"); d != "" {
+		replayDir = filepath.Join(d, "replays")
+	}
+	os.MkdirAll(replayDir, 0755)
 	sort.SliceStable(a.violations, func(i, j int) bool { return len(a.violations[i].Choices) < len(a.violations[j].Choices) })
 	exit := 0
 	knownHit := map[string]int{}
@@ -558,7 +562,7 @@ func runCheck(prop, tier, replayPath string) int {
 		if seenCheck[v.Check] > 2 {
 			continue
 		}
-		path := filepath.Join(verifDir, "replays", fmt.Sprintf("%s-%d-%d.json", prop, seed, len(vioLines)))
+		path := filepath.Join(replayDir, fmt.Sprintf("%s-%d-%d.json", prop, seed, len(vioLines)))
 		rfile := ReplayFile{Property: prop, Check: v.Check, Message: v.Msg, Kind: v.Kind, Seed: seed, RunSeed: v.RunSeed, Index: v.Index, Cell: v.Cell,
 			Mode: "choices", Choices: v.Choices, OrigLen: v.OrigLen, Shrink: v.ShrinkRun, Trace: v.Trace}
 		if strings.HasPrefix(v.Kind, "seed:") || strings.HasPrefix(v.Kind, "race-seed:") {
@@ -809,16 +813,20 @@ func writeEvidence(spec Spec, tier string, seed uint64, a *agg, b *Build, wall f
 		"wall_s":      wall,
 		"violations":  nviol,
 	}
-	os.MkdirAll(filepath.Join(verifDir, "evidence"), 0755)
+	evDir := filepath.Join(verifDir, "evidence")
+	if d := os.Getenv("VSIM_EVIDENCE_DIR"); d != "" {
+		evDir = d // bin/mutant-test: do not overwrite the evidence of the real tree
+	}
+	os.MkdirAll(evDir, 0755)
 	data, err := json.MarshalIndent(ev, "", " ")
 	if err != nil {
 		return err
 	}
-	tmp := filepath.Join(verifDir, "evidence", spec.Prop+".json.tmp")
+	tmp := filepath.Join(evDir, spec.Prop+".json.tmp")
 	if err := os.WriteFile(tmp, data, 0644); err != nil {
 		return err
 	}
-	return os.Rename(tmp, filepath.Join(verifDir, "evidence", spec.Prop+".json"))
+	return os.Rename(tmp, filepath.Join(evDir, spec.Prop+".json"))
 }
 
 // runSelftest is the determinism self-test: for every claimed property a
